@@ -440,6 +440,23 @@ def _worker(i):
   return _workers['list'][i]
 
 
+_warmed = set()
+
+
+def warm_up(harness_factory, params):
+  """CPython (3.12) instruments a code object for per-opcode events lazily: the first execution that asks for
+  opcode tracing of a function still misses its first events.  One throw-away execution per process and
+  parameter set makes every later execution see the same event stream."""
+  h = harness_factory(params)
+  ops = tuple(getattr(h, 'opcode_funcs', ()) or ())
+  key = (os.getpid(), ops)
+  if not ops or key in _warmed:
+    return
+  _warmed.add(key)
+  for _ in range(2):
+    run_one(harness_factory, params, [])
+
+
 def run_one(harness_factory, params, prefix, expect=None, keep_trace=False):
   """Run one execution of the harness under the given choice prefix.  Returns (sched, harness)."""
   h = harness_factory(params)
@@ -486,6 +503,7 @@ def explore_subtree(arg):
   """Worker: explore the whole subtree below one prefix (inclusive).  Returns aggregated stats."""
   factory, params, prefix, used, bounds, expect, max_violations = arg[:7]
   cap = arg[7] if len(arg) > 7 else None
+  warm_up(factory, params)
   stats = new_stats()
   stats['spill'] = []
   stack = [(prefix, used, expect)]
@@ -553,6 +571,7 @@ def plan(arg):
   """Expand the root of an exploration breadth-first until at least `fanout` subtrees exist.
   Returns (stats of the executions run here, [explore_subtree argument tuples])."""
   factory, params, bounds, fanout, max_violations = arg
+  warm_up(factory, params)
   total = new_stats()
   frontier = [([], (0, 0), None)]
   while frontier and len(frontier) < fanout:
